@@ -170,7 +170,7 @@ func (s *State) doCall(call *ssa.Call, cc *ssa.CallCommon) ([]*State, bool) {
 	if key == "sort::Search" {
 		return s.sortSearch(call, args)
 	}
-	if sp, ok := c.SS.Funcs[key]; ok && (sp.HasBody || sp.Trusted) && !sp.Inline && !(fn == c.Fn && false) {
+	if sp := c.SS.specFor(fn); sp != nil && (sp.HasBody || sp.Trusted) && !sp.Inline {
 		s.contractCall(call, sp, fn, fn.Signature, args, key, occ, false)
 		s.runGhost(fr, fmt.Sprintf("after %s#%d", anchorName, occ))
 		return nil, false
@@ -181,7 +181,7 @@ func (s *State) doCall(call *ssa.Call, cc *ssa.CallCommon) ([]*State, bool) {
 		nf.CallIns = call
 		nf.Closure = closure
 		nf.Params = args
-		nf.Spec = c.SS.Funcs[key]
+		nf.Spec = c.SS.specFor(fn)
 		for i, p := range fn.Params {
 			nf.Vals[p] = args[i]
 		}
@@ -490,6 +490,10 @@ func (s *State) havocLocation(env *SpecEnv, m string, sp *FuncSpec) {
 		}
 		panic(evalErr(fmt.Sprintf("modifies %q: unsupported location form", m)))
 	}
+	if fl, err := env.addrSafe(sel); err == nil && fl != nil {
+		s.store(fl, s.freshOf("hv_"+sel.Name, c.pathType(fl.Ty, fl.Path)))
+		return
+	}
 	base, err := env.evalAny(sel.X)
 	if err != nil {
 		panic(evalErr(fmt.Sprintf("modifies %q: %v", m, err)))
@@ -543,7 +547,7 @@ func (s *State) execBuiltin(call *ssa.Call, name string, args []ssa.Value) ([]*S
 			panic(abortPath{"len of " + args[0].Type().String()})
 		}
 	case "append":
-		s.execAppend(call, args)
+		return s.execAppend(call, args)
 	case "copy":
 		s.execCopy(call, args)
 	case "delete":
@@ -584,8 +588,19 @@ func (s *State) execBuiltin(call *ssa.Call, name string, args []ssa.Value) ([]*S
 			dn, _, ln, ds, _, ls := c.mapComps(u)
 			s.setComp(dn, ds, fmt.Sprintf("(store %s %s ((as const (Array %s Bool)) false))", s.comp(dn, ds), m, c.sortOf(u.Key())))
 			s.setComp(ln, ls, fmt.Sprintf("(store %s %s 0)", s.comp(ln, ls), m))
+		case *types.Slice:
+			x := s.name("clr", "Slice", s.term(args[0]))
+			cn, cs := c.elemComp(u.Elem())
+			es := c.sortOf(u.Elem())
+			E := s.comp(cn, cs)
+			A := s.name("clr_A", "(Array Int "+es+")", fmt.Sprintf("(select %s (s.base %s))", E, x))
+			An := s.freshConst("clr_new", "(Array Int "+es+")")
+			q := c.fresh("j")
+			s.assert(fmt.Sprintf("(forall ((%s Int)) (! (= (select %s %s) (ite (and (<= (s.off %s) %s) (< %s (+ (s.off %s) (s.len %s)))) %s (select %s %s))) :pattern ((select %s %s))))",
+				q, An, q, x, q, q, x, x, c.zero(u.Elem()), A, q, An, q))
+			s.setComp(cn, cs, fmt.Sprintf("(ite (= (s.len %s) 0) %s (store %s (s.base %s) %s))", x, E, E, x, An))
 		default:
-			panic(abortPath{"clear of slice"})
+			panic(abortPath{"clear of " + args[0].Type().String()})
 		}
 	case "close":
 		s.abstracted("close of channel")
@@ -612,7 +627,7 @@ func constLenOf(v ssa.Value) int {
 	return -1
 }
 
-func (s *State) execAppend(call *ssa.Call, args []ssa.Value) {
+func (s *State) execAppend(call *ssa.Call, args []ssa.Value) ([]*State, bool) {
 	c := s.C
 	st := c.under(args[0].Type()).(*types.Slice)
 	et := st.Elem()
@@ -645,7 +660,7 @@ func (s *State) execAppend(call *ssa.Call, args []ssa.Value) {
 	fits := s.name("ap_fits", "Bool", fmt.Sprintf("(<= (+ %s %s) (s.cap %s))", ln, n, x))
 	if k == 0 {
 		s.set(call, x)
-		return
+		return nil, false
 	}
 	nb := s.newRef("ap_base")
 	ncap := s.freshConst("ap_cap", "Int")
@@ -674,10 +689,18 @@ func (s *State) execAppend(call *ssa.Call, args []ssa.Value) {
 			q3, q3, q3, ln, n, An2, q3, q3, ln, Aold, x, q3, srcElem(fmt.Sprintf("(- %s %s)", q3, ln))))
 		Afit, Anew = Af, An2
 	}
-	rb := fmt.Sprintf("(ite %s (s.base %s) %s)", fits, x, nb)
-	res := s.name("ap_r", "Slice", fmt.Sprintf("(ite %s (mk-slice (s.base %s) (s.off %s) (+ %s %s) (s.cap %s)) (mk-slice %s 0 (+ %s %s) %s))", fits, x, x, ln, n, x, nb, ln, n, ncap))
-	s.setComp(cn, cs, fmt.Sprintf("(store %s %s (ite %s %s %s))", E, rb, fits, Afit, Anew))
-	s.Frame.Vals[call] = res
+	// two paths: the append fits into the capacity (in place, visible through every alias of the backing
+	// array), or a new backing array is allocated
+	s2 := s.clone()
+	c.n++
+	s2.PathID = c.n
+	s.assert(fits)
+	s.setComp(cn, cs, fmt.Sprintf("(store %s (s.base %s) %s)", E, x, Afit))
+	s.Frame.Vals[call] = s.name("ap_r", "Slice", fmt.Sprintf("(mk-slice (s.base %s) (s.off %s) (+ %s %s) (s.cap %s))", x, x, ln, n, x))
+	s2.assert("(not " + fits + ")")
+	s2.setComp(cn, cs, fmt.Sprintf("(store %s %s %s)", E, nb, Anew))
+	s2.Frame.Vals[call] = s2.name("ap_r", "Slice", fmt.Sprintf("(mk-slice %s 0 (+ %s %s) %s)", nb, ln, n, ncap))
+	return []*State{s2, s}, true
 }
 
 func (s *State) execCopy(call *ssa.Call, args []ssa.Value) {
@@ -735,7 +758,7 @@ func (s *State) callValue(fv Value, args []Value, at ssa.Instruction, onRet func
 	nf.Closure = cl
 	nf.Params = args
 	nf.OnReturn = onRet
-	nf.Spec = c.SS.Funcs[funcKey(fn)]
+	nf.Spec = c.SS.specFor(fn)
 	for i, p := range fn.Params {
 		nf.Vals[p] = args[i]
 	}
